@@ -163,8 +163,28 @@ def decide(prop, mod, results, tier, seed, wall):
         if en:
             if en.get("error"):
                 crash.append({"task": r["task"], "error": "bounded enumeration crashed: " + en["error"]})
-            st = "failed" if en["failures"] else "discharged"
-            f0 = en["failures"][0] if en["failures"] else None
+            # failures that are listed known findings are reported as such (once each); the first one
+            # that is not listed is the violation
+            fresh = []
+            for fl in en["failures"]:
+                hit = None
+                for kid, kf_ in open_ids.items():
+                    if kf_.get("obligation") == en["name"]:
+                        w = getattr(mod, "WITNESSES", {}).get(kf_.get("witness"))
+                        try:
+                            if w is not None and w(fl["model"]):
+                                hit = kf_
+                                break
+                        except Exception:
+                            pass
+                if hit is None:
+                    fresh.append(fl)
+                elif not any(h["id"] == hit["id"] for h in known_hits):
+                    known_hits.append({"id": hit["id"], "obligation": en["name"], "what": hit["what"], "model": fl["model"],
+                                       "replay": {"confirmed": True, "detail": fl["detail"]}})
+                    lines.append(f"KNOWN-FINDING: property={prop} {hit['what']} [{hit['id']}; obligation {en['name']}]")
+            st = "failed" if fresh else "discharged"
+            f0 = fresh[0] if fresh else None
             obs.append({"name": en["name"], "kind": "bounded-enumeration", "deciding": True, "status": st, "paths": en["cases"],
                         "queries": 0, "solver_s": 0, "backends": ["cpython"], "enum_bound": en["bound"],
                         "failure": ({"model": f0["model"], "native": f0["detail"], "violated": f0["detail"], "decisions": None, "backend": "cpython"} if f0 else None)})
@@ -255,7 +275,7 @@ def decide(prop, mod, results, tier, seed, wall):
         "known_findings_hit": known_hits, "violation_details": violations,
         "undecided": undecided,
         "samples": _samples(results),
-        "evaluations": sum(r.get("paths", 0) for r in results),
+        "evaluations": sum(r.get("paths", 0) for r in results) + sum((r.get("enumeration") or {}).get("cases", 0) for r in results),
         "distinct_nontrivial": len({o["name"] for o in ob_rows + bounded_rows}),
         "rule": "one case = one named obligation (all paths of the extracted function); non-trivial = needed a solver or simplifier verdict",
     }
